@@ -38,8 +38,12 @@ class Result(object):
 
 
 class Translator(object):
+  """abstract_nl=True: every nonlinear monomial becomes an opaque real variable (a sound
+  relaxation: unsat of the relaxed query implies unsat of the exact one)."""
 
-  def __init__(self):
+  def __init__(self, abstract_nl=False):
+    self.abstract_nl = abstract_nl
+    self.mono_var = {}
     self.atom_term = {}
     self.atom_defs = {}
     self.pcache = {}
@@ -57,6 +61,15 @@ class Translator(object):
     terms = []
     for m, c in poly.t.items():
       fs = []
+      if self.abstract_nl and sum(e for _, e in m) > 1:
+        for i, e in m:
+          self.atom(E.ATOMS[i])     # keep definitions of the factors
+        v = self.mono_var.get(m)
+        if v is None:
+          v = z3.Real('mono!%d' % len(self.mono_var))
+          self.mono_var[m] = v
+        terms.append(v if c == 1 else self.num(c) * v)
+        continue
       for i, e in m:
         t = self.atom(E.ATOMS[i])
         for _ in range(e):
@@ -98,7 +111,8 @@ class Translator(object):
     elif k == 'inv':
       t = z3.Real('inv!a%d' % a.id)
       q = self.p(a.args[0])
-      defs.append(z3.Implies(q != 0, t * q == 1))
+      if not self.abstract_nl:
+        defs.append(z3.Implies(q != 0, t * q == 1))
     elif k == 'ite':
       t = z3.If(self.b(a.args[0]), self.p(a.args[1]), self.p(a.args[2]))
     elif k == 'fn':
@@ -266,12 +280,39 @@ def prove(assumptions, goal, tr=None, timeout_ms=None):
   if goal.kind == 'const':
     if goal.args:
       return Result('proved', None, 0.0, 'simplifier')
+  if _nonlinear(list(assumptions) + [goal]):
+    # cheap first attempt: linear relaxation (nonlinear monomials opaque)
+    tr_l = getattr(tr, 'linear_twin', None) if tr is not None else None
+    if tr_l is None:
+      tr_l = Translator(abstract_nl=True)
+      if tr is not None:
+        tr.linear_twin = tr_l
+    t0 = time.time()
+    r0 = check_sat(list(assumptions) + [~goal], tr_l, min(timeout_ms or Z3_TIMEOUT_MS, 5000),
+                   want_model=False, use_cvc5=False)
+    if r0.status == 'unsat':
+      return Result('proved', None, time.time() - t0, 'z3-linear-relaxation')
   r = check_sat(list(assumptions) + [~goal], tr, timeout_ms)
   if r.status == 'unsat':
     return Result('proved', None, r.time, r.backend, r.detail)
   if r.status == 'sat':
     return Result('refuted', r.model, r.time, r.backend, r.detail)
   return Result('unknown', None, r.time, r.backend, r.detail)
+
+
+def _nonlinear(bools):
+  for b in bools:
+    for p in b.polys():
+      if p.degree() > 1:
+        return True
+  for i in E.atoms_closure([], bools):
+    a = E.ATOMS[i]
+    if a.kind == 'inv':
+      return True
+    for x in a.args:
+      if isinstance(x, P) and x.degree() > 1:
+        return True
+  return False
 
 
 def entails(assumptions, b, timeout_ms=2000):
